@@ -2,7 +2,7 @@
 CountingPrinciple: the constraint of an element counts the chosen subsets containing it;
 double counting; the block partition witness.
 -/
-import Lemmas.FamCombos
+import Lemmas.C01Combos
 import CnfgenModel.Fam.Counting
 namespace Cnfgen.Fam
 open Cnfgen
